@@ -441,6 +441,53 @@ fn random_ops(map_tags: &[String], r: &mut Rng, n: usize) -> Vec<Op> {
     ops
 }
 
+/// For every field number present under two or more option letters: the letters requested one by one in
+/// every order (preceded by the non-C/L group, followed by an unconstrained request), plain and numbered
+fn systematic_histories(t: &str, tags: &[String]) -> Vec<Case> {
+    let mut out = Vec::new();
+            // systematic: for every field number present under two or more option letters, the letters are
+            // requested one by one in every order (then unconstrained), plain and numbered
+                let mut by_base: BTreeMap<String, Vec<String>> = BTreeMap::new();
+                for tg in tags {
+                    if tg.len() == 3 {
+                        let e = by_base.entry(tg[..2].to_string()).or_default();
+                        if !e.contains(&tg[2..].to_string()) {
+                            e.push(tg[2..].to_string());
+                        }
+                    }
+                }
+                for (base, letters) in &by_base {
+                    if letters.len() < 2 || letters.len() > 4 {
+                        continue;
+                    }
+                    // all permutations of the letters
+                    let mut perms: Vec<Vec<String>> = vec![vec![]];
+                    for _ in 0..letters.len() {
+                        let mut next = Vec::new();
+                        for p in &perms {
+                            for x in letters {
+                                if !p.contains(x) {
+                                    let mut q = p.clone();
+                                    q.push(x.clone());
+                                    next.push(q);
+                                }
+                            }
+                        }
+                        perms = next;
+                    }
+                    for p in perms {
+                        for numbered in [false, true] {
+                            let mut ops: Vec<Op> = p.iter().map(|x| Op::Find { base: base.clone(), variants: Some(vec![x.clone()]), numbered }).collect();
+                            // groups as the message parsers use them (instructing party C/L vs the rest)
+                            ops.insert(0, Op::Find { base: base.clone(), variants: Some(letters.iter().filter(|x| !matches!(x.as_str(), "C" | "L")).cloned().collect()), numbered });
+                            ops.push(Op::Find { base: base.clone(), variants: None, numbered });
+                            out.push(Case::History { text: t.to_string(), ops });
+                        }
+                    }
+                }
+    out
+}
+
 pub fn run(cfg: &Config) -> i32 {
     let started = std::time::Instant::now();
     let c = Corpus::load(&cfg.verif_dir);
@@ -496,6 +543,11 @@ pub fn run(cfg: &Config) -> i32 {
             if tags.is_empty() {
                 continue;
             }
+            if ti == 0 {
+                for c in systematic_histories(t, &tags) {
+                    cases.push(("history-systematic".into(), c));
+                }
+            }
             for h in 0..hist_per_text {
                 let mut rr = Rng::new(cfg.seed, "c16-hist", (k * 1000 + ti * 200 + h) as u64);
                 let n = 2 + rr.below(14);
@@ -504,6 +556,19 @@ pub fn run(cfg: &Config) -> i32 {
         }
         for config in ["MT101", "MT104", "MT107", "MT110", "MT204", "MT935", "MT940", "MT942", "MT000"] {
             cases.push((format!("split/{config}"), Case::Split { text: plain.clone(), config: config.into() }));
+        }
+    }
+    // synthetic texts in which one field number occurs under several option letters, in an order the message
+    // parsers do not use
+    for t in [
+        ":20:REF\n:50F:/ACC\n1/NAME\n:50L:PARTY\n:50K:/ACC2\nNAME\n:59:/ACC3\nBEN",
+        ":20:REF\n:50K:/ACC2\nNAME\n:50C:BANKDEFF\n:50A:/ACC\nBANKDEFF\n:50L:PARTY",
+        ":20:REF\n:59:/ACC\nNAME\n:59A:/ACC\nBANKDEFF\n:59F:/ACC\n1/NAME",
+        ":20:REF\n:52D:NAME\n:52A:BANKDEFF\n:52C:/CLR\n:57A:BANKDEFF\n:57D:NAME",
+    ] {
+        let tags: Vec<String> = tok::tokenize(t).fields.iter().map(|f| f.tag.clone()).collect();
+        for c in systematic_histories(t, &tags) {
+            cases.push(("history-systematic".into(), c));
         }
     }
     // large texts: stamp packing beyond 65535 fields (quick: 70k once; thorough: three sizes)
